@@ -329,6 +329,32 @@ func (expr Expression) variablesUsed(acc map[string]struct{}) {
 	case ExpressionTypeTypeCast:
 		expr.TypeCast.Expression.variablesUsed(acc)
 		return
+	case ExpressionTypeCoalesce:
+		for _, arg := range expr.Coalesce.Arguments {
+			arg.variablesUsed(acc)
+		}
+		return
+	case ExpressionTypeTuple:
+		for _, arg := range expr.Tuple.Arguments {
+			arg.variablesUsed(acc)
+		}
+		return
+	case ExpressionTypeObjectFieldAccess:
+		expr.ObjectFieldAccess.Object.variablesUsed(acc)
+		return
+	case ExpressionTypeQueryExpression:
+		// Collect every variable referenced anywhere inside the subquery. Variable names are unique,
+		// so the subquery's own variables can't be mistaken for variables of an outer schema.
+		t := Transformers{
+			ExpressionTransformer: func(inner Expression) Expression {
+				if inner.ExpressionType == ExpressionTypeVariable {
+					acc[inner.Variable.Name] = struct{}{}
+				}
+				return inner
+			},
+		}
+		t.TransformNode(expr.QueryExpression.Source)
+		return
 	}
 
 	panic("unexhaustive expression type match")
